@@ -295,6 +295,12 @@ pub fn parse_statement(
     };
     if let Some(rest) = thread_rest {
         *line_index += 1;
+        if rest.is_empty() {
+            return Err(
+                CompilerError::invalid_source("expected thread target after '<-'".to_owned())
+                    .with_line(ln),
+            );
+        }
         let divert = parse_divert(rest).map_err(|e| e.with_line(ln))?;
         return Ok(ParsedStatement::Nodes(vec![Node::ThreadDivert(divert)]));
     }
